@@ -1,24 +1,77 @@
-// Reader REUSE (C01, C03, C07, C10; additive in C04): ProgramReader::accept "associates the reader with the given input stream" and
-// reset() exists, so one reader OBJECT may read several texts in a row and must treat each like a fresh reader would.
+// Reader REUSE (C01, C03, C07, C08, C10; additive in C04): ProgramReader::accept "associates the reader with the given input stream" and
+// reset() exists, so one reader OBJECT may read several texts in a row and must treat each like a fresh reader would - whatever the
+// earlier text was and however reading it ended (accepted, or REFUSED at any point: "state left behind by a refused input").
 // For every other case - decided by a hash of ALL integers of the case, so it is deterministic and replayable - the harness first runs a
-// fixed, accepted, INCREMENTAL primer text of the same format through the reader object (its calls and its result are thrown away) and then
-// accept()s + parses the case's text on that SAME object with exactly the error handling / observation of the unprimed path.
-// For a correct implementation the primer is invisible, so the model (coq/Cnn/Model.v) and the oracles are unchanged.
-// props/C03.py `primed` computes the same hash (shown by describe()).
+// PRIMER text of the same format through the reader object (its calls and its result are thrown away) and then accept()s + parses the
+// case's text on that SAME object with exactly the error handling / observation of the unprimed path. Which primer is used is decided by
+// further bits of the same hash (pick): accepted ones (empty incremental; rich multi-step programs with symbol tables / theory data) and
+// refused ones (cut off inside a rule / statement, inside and after the symbol table, inside the compute statement, in the trailer, in a
+// later step, "invalid extra input"). The smodels symbol tables bind the names the C08 generator uses (props/C08.py GOOD_NAMES, _atom(k)) to
+// OTHER atoms (RU_SYM_A: small atoms in rotated order, RU_SYM_B: atoms no generated case uses) and carry _edge / _acyc_ / _heuristic
+// predicates, so a table that survives the primer binds a later `_heuristic(name,..)` to the wrong atom / renumbers edge nodes.
+// For a correct implementation every primer is invisible, so the models (coq/Cnn/Model.v) and the oracles are unchanged.
+// props/reuse.py reads the primer tables FROM THIS FILE (one entry per line: {"tag", literal-or-macro ...}; keep that shape) and computes
+// the same hash / choice; describe() of the plugins prints the primer.
 #pragma once
 #include "common.h"
 #include <potassco/match_basic_types.h>
 namespace reuse {
-// FNV-1a (64 bit) over the case's integers; bit 17 decides.
-inline bool primed(const Case& c) {
+// FNV-1a (64 bit) over the case's integers; bit 17 decides "primed", bits 20.. choose the primer.
+inline unsigned long long hash(const Case& c) {
 	unsigned long long h = 1469598103934665603ull;
 	for (size_t i = 0; i != c.v.size(); ++i) { h = (h ^ static_cast<unsigned long long>(c.v[i])) * 1099511628211ull; }
-	return ((h >> 17) & 1u) != 0;
+	return h;
 }
-static const char* const ASPIF_PRIMER       = "asp 1 0 0 incremental\n0\n";
-static const char* const SMODELS_PRIMER_EXT = "90 0\n0\n0\nB+\n0\nB-\n0\n1\n"; // rule type 90 (clasp extension): incremental
-static const char* const SMODELS_PRIMER     = "0\n0\nB+\n0\nB-\n0\n1\n";       // without claspExt no incremental text exists
-static const char* const TEXT_PRIMER        = "#incremental.\n";
+inline bool primed(const Case& c) { return ((hash(c) >> 17) & 1u) != 0; }
+inline unsigned pick(const Case& c, unsigned n) { return static_cast<unsigned>((hash(c) >> 20) % n); }
+struct Primer { const char* tag; const char* text; };
+#define RU_RULES "1 2 1 0 3\n3 2 2 3 1 1 4\n2 4 2 1 1 2 3\n5 5 3 2 1 2 3 1 2\n6 0 2 1 2 3 1 2\n8 2 6 7 0 0\n"
+#define RU_TAIL "0\nB+\n0\nB-\n0\n1\n"
+#define RU_SYM_A "5 a\n6 b\n7 c\n8 p(1)\n9 p(\"a,b\",f(1,2))\n10 q(\"x\\\"y\")\n2 \"str\"\n3 f(a,g(b))\n4 x y\n5 _atom(2)\n6 -1\n7 p(\")\")\n8 p(\"(\")\n9 q(\"\\\\\")\n10 n(-3,\"\")\n2 _x\n3 A(b)\n4 _atom(3)\n5 _atom(4)\n6 _atom(5)\n7 _atom(6)\n8 _atom(7)\n9 _atom(8)\n10 d\n2 zz\n12 _edge(0,1)\n13 _edge(7,1000000)\n14 _edge(2147483647,-1)\n15 _edge(-2147483648,3)\n16 _edge(2,2)\n17 _acyc_1_5_6\n18 _heuristic(a,level,1,1)\n19 _heuristic(zz,sign,-1,2)\n20 _heuristic(_atom(2),init,7,0)\n"
+#define RU_SYM_B "125 a\n124 b\n123 c\n122 p(1)\n121 p(\"a,b\",f(1,2))\n120 q(\"x\\\"y\")\n119 \"str\"\n118 f(a,g(b))\n117 x y\n116 _atom(2)\n115 -1\n114 p(\")\")\n113 p(\"(\")\n112 q(\"\\\\\")\n111 n(-3,\"\")\n110 _x\n109 A(b)\n108 _atom(3)\n107 _atom(4)\n106 _atom(5)\n105 _atom(6)\n104 _atom(7)\n103 _atom(8)\n102 d\n101 zz\n200 _edge(0,1)\n201 _edge(7,1000000)\n202 _edge(2147483647,-1)\n203 _edge(-2147483648,3)\n204 _edge(2,2)\n205 _acyc_1_5_6\n206 _heuristic(a,level,1,1)\n207 _heuristic(zz,sign,-1,2)\n208 _heuristic(_atom(2),init,7,0)\n"
+static const Primer ASPIF_PRIMERS[] = {
+	{"accepted-incremental-empty", "asp 1 0 0 incremental\n0\n"},
+	{"accepted-incremental-two-steps-all-directives", "asp 1 0 0 incremental\n1 0 1 1 0 1 -2\n1 1 2 2 3 1 2 2 1 1 -4 2\n2 1 2 1 3 -2 1\n3 1 1\n4 1 a 1 1\n5 2 2\n6 1 -1\n7 0 1 2 3 1 2\n8 0 1 1 1\n9 0 1 5\n9 1 2 1 x\n9 2 3 2 1 1\n9 4 0 1 3 1 1\n9 5 4 2 1 0\n9 6 5 2 1 0 2 1\n10 c\n0\n1 0 1 5 0 0\n0\n"},
+	{"refused-inside-rule", "asp 1 0 0\n1 0 1 1 0 3 1 -2"},
+	{"refused-inside-theory-atom", "asp 1 0 0\n9 0 1 5\n9 1 2 1 x\n9 4 0 1 1 0\n9 5 3 2 2 0"},
+	{"refused-in-second-step", "asp 1 0 0 incremental\n1 0 1 1 0 0\n4 1 a 1 1\n0\n1 0 1 2 0 0\n99\n"},
+	{"refused-extra-input", "asp 1 0 0\n1 0 1 1 0 0\n0\nasp 1 0 0\n"},
+	{"refused-in-problem-line", "asp 1 0 0 incremental x\n"},
+	{"refused-inside-string", "asp 1 0 0\n4 10 abc"},
+};
+static const Primer SMODELS_PRIMERS[] = { // need no option
+	{"accepted-empty", "0\n" RU_TAIL},
+	{"accepted-with-symbols", RU_RULES "0\n" RU_SYM_A "0\nB+\n2\n0\nB-\n3\n0\nE\n4\n0\n1\n"},
+	{"refused-inside-rules", "1 2 1 0 3\n5 5 3 2 1 2 3 1"},
+	{"refused-after-symbol-table", RU_RULES "0\n" RU_SYM_A "0\n"},
+	{"refused-inside-compute", RU_RULES "0\n" RU_SYM_B "0\nB+\n2\nx\n"},
+	{"refused-in-trailer", RU_RULES "0\n" RU_SYM_A "0\nB+\n0\nB-\n0\nE\n4\n0\nx\n"},
+	{"refused-extra-input", "1 2 0 0\n0\n" RU_SYM_B RU_TAIL "1 3 0 0\n"},
+	{"refused-inside-symbol-table-name", RU_RULES "0\n" RU_SYM_A "40 zzz"},
+	{"refused-inside-symbol-table-atom", "0\n" RU_SYM_B "x\n"},
+};
+static const Primer SMODELS_EXT_PRIMERS[] = { // need claspExt (rule types 90, 91, 92); used in addition to SMODELS_PRIMERS when the case enables it
+	{"accepted-incremental-empty", "90 0\n0\n" RU_TAIL},
+	{"accepted-incremental-two-steps-with-symbols", "90 0\n" RU_RULES "0\n" RU_SYM_A RU_TAIL "90 0\n91 2 1\n92 3\n0\n41 e\n" RU_TAIL},
+	{"refused-in-second-step", "90 0\n0\n" RU_SYM_B RU_TAIL "90 0\n91 2 3\n"},
+	{"refused-increment-rule", "1 2 0 0\n90 1\n"},
+};
+static const Primer TEXT_PRIMERS[] = {
+	{"accepted-incremental-empty", "#incremental.\n"},
+	{"accepted-incremental-two-steps-all-directives", "#incremental.\n{a;b} :- not c.\nd :- 2 {a=1, not b=3}.\n#output p(\"x\",1) : a, not b.\n#project {a,b}.\n#assume {a, not b}.\n#step.\n#external e. [true]\n#heuristic a : b. [1@2, level]\n#edge (0,1) : a.\n#minimize {a=2, b}@1.\n"},
+	{"refused-inside-rule-body", "a :- b, not"},
+	{"refused-inside-aggregate", "{a;b} :- c.\nd :- 2 {a=1, \n"},
+	{"refused-inside-string", "#output p(\"x : a.\n"},
+	{"refused-in-second-step", "#incremental.\na.\n#step.\n#heuristic a : b. [1@-2, level]\n"},
+	{"refused-step-without-incremental", "a.\n#step.\n"},
+};
+template <unsigned N> inline unsigned count(const Primer (&)[N]) { return N; }
+inline const Primer& aspifPrimer(const Case& c) { return ASPIF_PRIMERS[pick(c, count(ASPIF_PRIMERS))]; }
+inline const Primer& textPrimer(const Case& c)  { return TEXT_PRIMERS[pick(c, count(TEXT_PRIMERS))]; }
+inline const Primer& smodelsPrimer(const Case& c, bool claspExt) {
+	const unsigned n = count(SMODELS_PRIMERS), k = pick(c, n + (claspExt ? count(SMODELS_EXT_PRIMERS) : 0u));
+	return k < n ? SMODELS_PRIMERS[k] : SMODELS_EXT_PRIMERS[k - n];
+}
 // Runs the primer through reader (accept + parse(Complete)); whatever it delivers goes to the reader's output object, which the caller discards.
 // The stream is kept by the caller until the reader is gone. Returns whether the primer was accepted (only for self-tests of the harness).
 inline bool prime(Potassco::ProgramReader& reader, std::istream& primer) {
